@@ -35,6 +35,9 @@ def run(ctx):
     d_subflow_resume(ctx)
     e_assignment(ctx)
     f_decision_priority(ctx)
+    d_completion_siblings(ctx)
+    b_branch_indentation(ctx)
+    c_start_probe(ctx)
 
 
 # ---------------------------------------------------------------------------------
@@ -559,3 +562,99 @@ def f_decision_priority(ctx):
     ok = bool(tests) and all(re.search(r"priority\s*>\s*\w+\.next_step_priority|next_step_priority\s*<\s*\w+\.priority", src(i.test)) for i in tests)
     ctx.check("C14.f.decision-priority", FLOWS1, "_record_next_step", "strictly higher priority replaces", ok,
               "a recorded next step is replaced only by a flow of strictly higher priority (ties keep the first)", line=rec.lineno)
+
+
+CP1 = "nemoguardrails/colang/v1_0/lang/colang_parser.py"
+
+
+def d_completion_siblings(ctx):
+    """Sibling agreement inside compute_next_state: wherever a flow is slid, a negative head afterwards means it ran to its end and must be marked COMPLETED
+    (the advance path does so; a flow that starts AND finishes on the same event takes the start path).  And a called subflow contributes a next step only
+    while it waits on its own head (status ACTIVE), not when it is itself interrupted by a deeper subflow (F42, F43)."""
+    t = ctx.tree.ast(FLOWS1)
+    cns = find_function(t, "compute_next_state")
+    if cns is None:
+        raise AnalysisError("compute_next_state not found", anchor=FLOWS1 + "::compute_next_state")
+    calls = [c for c in ast.walk(cns) if isinstance(c, ast.Call) and src(c.func) == "_slide_with_subflows" and len(c.args) == 2]
+    ctx.floor("C14.d.completion", FLOWS1, "slides of a flow inside compute_next_state", len(calls), 2)
+    for c in calls:
+        fs = src(c.args[1])
+        st = c
+        while not isinstance(st, ast.stmt):
+            st = st._parent
+        blk = None
+        p_ = st._parent
+        for f in ("body", "orelse"):
+            b = getattr(p_, f, None)
+            if isinstance(b, list) and st in b:
+                blk = b
+        after = blk[blk.index(st) + 1:] if blk else []
+        ok = any(isinstance(i, ast.If) and re.sub(r"\s", "", src(i.test)) == "%s.head<0" % fs and
+                 any(isinstance(a, ast.Assign) and src(a.targets[0]) == "%s.status" % fs and src(a.value).endswith("COMPLETED") for a in ast.walk(i)) for i in after)
+        ctx.check("C14.d.completion", FLOWS1, "compute_next_state", first_line(st, 70), ok,
+                  "after sliding, a negative head marks the flow COMPLETED" if ok else
+                  "a flow slid here is not marked COMPLETED when it runs to its end: an instance that starts and finishes on the same event stays ACTIVE with a negative head - the flow cannot start again, "
+                  "and later events re-execute its last statements", line=st.lineno)
+    cs = find_function(t, "_call_subflow")
+    if cs is None:
+        raise AnalysisError("_call_subflow not found", anchor=FLOWS1 + "::_call_subflow")
+    recs = [c for c in ast.walk(cs) if isinstance(c, ast.Call) and src(c.func) == "_record_next_step"]
+    for c in recs:
+        fs = src(c.args[1]) if len(c.args) > 1 else None
+        guarded = False
+        p_ = getattr(c, "_parent", None)
+        while p_ is not None and p_ is not cs:
+            if isinstance(p_, ast.If) and re.sub(r"\s", "", src(p_.test)) in ("%s.status==FlowStatus.ACTIVE" % fs,):
+                guarded = True
+            p_ = getattr(p_, "_parent", None)
+        ctx.check("C14.d.subflow-step", FLOWS1, "_call_subflow", first_line(c, 70), guarded,
+                  "the called subflow contributes a next step only while it is ACTIVE (waiting on its own head)" if guarded else
+                  "the next step of the called subflow is recorded unconditionally: if that subflow is itself waiting for a deeper subflow, its head is already past the call, so the statement AFTER the "
+                  "inner call is decided while the inner subflow still waits", line=c.lineno)
+
+
+def b_branch_indentation(ctx):
+    """Blocks are delimited by comparing later lines with the indentation recorded for the branch.  The recorded value must be the indentation of the branch's OWN
+    first line (`self.next_line`); the then-branch may reuse the value it has just stored in self.ifs from next_line.  An else-branch that reuses the THEN body's
+    indentation is closed by its own first line when it is indented less, and its body is compiled after the `if`, i.e. runs unconditionally (F45)."""
+    t = ctx.tree.ast(CP1)
+    n = 0
+    for fn in functions(t):
+        for c in [c for c in walk_no_nested(fn) if isinstance(c, ast.Call) and src(c.func) == "self.branches.append" and c.args and isinstance(c.args[0], ast.Dict)]:
+            d = c.args[0]
+            ind = [v for k, v in zip(d.keys, d.values) if isinstance(k, ast.Constant) and k.value == "indentation"]
+            if not ind:
+                continue
+            n += 1
+            txt = re.sub(r"\s", "", src(ind[0]))
+            own = "self.next_line['indentation']" in txt.replace('"', "'")
+            reuse = txt.replace('"', "'") == "self.ifs[-1]['indentation']" and any(
+                isinstance(x, ast.Call) and src(x.func) == "self.ifs.append" and "next_line" in src(x) and x.lineno < c.lineno for x in walk_no_nested(fn))
+            ok = own or reuse
+            ctx.check("C14.b.branch-indentation", CP1, qualname(fn), "branches.append(indentation=%s)" % src(ind[0])[:50], ok,
+                      "the branch is delimited by the indentation of its own first line" if ok else
+                      "the branch is delimited by `%s`, the indentation of ANOTHER block: an else body indented less than the then body is closed by its own first line and compiled after the `if`, "
+                      "where it executes unconditionally" % src(ind[0])[:50], line=c.lineno)
+    ctx.floor("C14.b.branch-indentation", CP1, "branch registrations with an indentation", n, 4)
+
+
+def c_start_probe(ctx):
+    """To see whether a flow can start on the current event, compute_next_state first slides it from position 0 ("in case a flow starts with sliding logic").
+    slide() EXECUTES `set` elements (it writes the state's context).  Probing on the live state therefore runs the leading assignments of every flow on every
+    event, whether or not the flow starts (F44)."""
+    sl = find_function(ctx.tree.ast(SLIDING), "slide")
+    cns = find_function(ctx.tree.ast(FLOWS1), "compute_next_state")
+    if sl is None or cns is None:
+        raise AnalysisError("slide / compute_next_state not found", anchor=SLIDING + "::slide")
+    sp = sl.args.args[0].arg
+    effects = [n for n in ast.walk(sl) if (isinstance(n, ast.Call) and isinstance(n.func, ast.Attribute) and n.func.attr in ("update", "append") and src(n.func.value).startswith(sp + ".context")) or
+               (isinstance(n, ast.Assign) and src(n.targets[0]).startswith(sp + ".context"))]
+    probes = [c for c in ast.walk(cns) if isinstance(c, ast.Call) and src(c.func) == "slide" and c.args]
+    ctx.floor("C14.c.start-probe", FLOWS1, "start probes in compute_next_state", len(probes), 1)
+    for c in probes:
+        live = src(c.args[0]) == "new_state"
+        ok = not (effects and live)
+        ctx.check("C14.c.start-probe", FLOWS1, "compute_next_state", first_line(c, 70), ok,
+                  "the start probe cannot change the live state" if ok else
+                  "the start probe slides the flow on the LIVE state and slide() executes `set` elements (%d context writes in slide): assignments before a flow's first `user`/event step run on every event "
+                  "even if the flow never starts, and are published as ContextUpdate - another flow's `if $greeted` then takes the wrong branch" % len(effects), line=c.lineno)
